@@ -1,5 +1,6 @@
 import GormModel.Drv.Util
 import GormModel.Model.Migrate
+import GormModel.Model.MigrateOpts
 open Lean
 namespace Gorm.Drv
 open Gorm.Mig
@@ -73,6 +74,27 @@ def parseDeps (j : Json) : Option ModelDeps := do
     some (fs, (← jStr? (arg a 1)).toList)
   some { table := ← oStr j "table", depends := ← strs j "depends", joins := joins }
 
+def parseRelKind : Str → RelKind
+  | ['h', 'a', 's', '_', 'o', 'n', 'e'] => .hasOne
+  | ['h', 'a', 's', '_', 'm', 'a', 'n', 'y'] => .hasMany
+  | ['b', 'e', 'l', 'o', 'n', 'g', 's', '_', 't', 'o'] => .belongsTo
+  | _ => .many2many
+
+def parseRelDecl (j : Json) : Option RelDecl := do
+  let con : Option (Str × Str × Str) ← match (j.getObjVal? "con").toOption with
+    | some Json.null | none => some none
+    | some v => do
+      let a ← jArr? v
+      some (some ((← jStr? (arg a 0)).toList, (← jStr? (arg a 1)).toList, (← jStr? (arg a 2)).toList))
+  let join : Option Str := match (j.getObjVal? "join").toOption with
+    | some (Json.str x) => some x.toList
+    | _ => none
+  some { kind := parseRelKind (← oStr j "kind"), target := ← oStr j "target", ignoreMigration := ← oBool j "ignore",
+         con := con, join := join }
+
+def parseModelRels (j : Json) : Option ModelRels := do
+  some { table := ← oStr j "table", rels := ← (← oArr j "rels").toList.mapM parseRelDecl }
+
 def parseEntry (j : Json) : Option IdxEntry := do
   some { name := ← oStr j "name", cls := ← oStr j "class", typ := ← oStr j "type", whr := ← oStr j "where",
          comment := ← oStr j "comment", option := ← oStr j "option", field := ← oStr j "field", priority := ← oInt j "priority" }
@@ -112,6 +134,9 @@ open HC20 in
     ["mig.column", field, col]            -> {"acts":[…], "full": lower-cased full type, "trace":{…}}
     ["mig.auto", model, table|null]       -> [[kind, name]…]   (one AutoMigrate iteration for one model)
     ["mig.reorder", [deps…], [values…], autoAdd] -> [table…]
+    ["mig.reorderopt", [{table, rels:[{kind,target,ignore,con:null|[name,schema,ref],join:null|table}…]}…], [values…], autoAdd,
+        disableFK, ignoreRel] -> [table…]      (ReorderModels under the configuration switches)
+    ["mig.fksopt", [models…], [tables…], disableFK, ignoreRel] -> {table: [constraint names AutoMigrate/CreateTable reconcile]}
     ["mig.constraint", rel, [rels of the referenced schema…]] -> null | {name,schema,ref,fks,refs,ondelete,onupdate}
     ["mig.addcolumn", table, field]       -> the ALTER TABLE … ADD … statement text
     ["mig.indexes", [entries…]]           -> [{name,class,type,where,comment,option,fields:[[field,priority]…]}…] -/
@@ -138,6 +163,19 @@ def handleC20 (op : String) (args : Array Json) : Option Json := do
     let vs := (← (← jArr? (arg args 2)).toList.mapM jStr?).map String.toList
     let autoAdd ← jBool? (arg args 3)
     some (Json.arr ((reorderModels g vs autoAdd).map sJ).toArray)
+  | "mig.reorderopt" =>
+    let ms ← (← jArr? (arg args 1)).toList.mapM parseModelRels
+    let vs := (← (← jArr? (arg args 2)).toList.mapM jStr?).map String.toList
+    let autoAdd ← jBool? (arg args 3)
+    let o : MigOpts := { disableFK := ← jBool? (arg args 4), ignoreRel := ← jBool? (arg args 5) }
+    some (Json.arr ((reorderModelsOpt o ms vs autoAdd).map sJ).toArray)
+  | "mig.fksopt" =>
+    let ms ← (← jArr? (arg args 1)).toList.mapM parseModelRels
+    let ts := (← (← jArr? (arg args 2)).toList.mapM jStr?).map String.toList
+    let o : MigOpts := { disableFK := ← jBool? (arg args 3), ignoreRel := ← jBool? (arg args 4) }
+    some (Json.mkObj (ts.filterMap fun t =>
+      (ms.find? (fun m => m.table = t)).map fun m =>
+        (String.ofList t, Json.arr ((fksOpt o m).toArray.qsort (fun a b => String.ofList a < String.ofList b) |>.map sJ))))
   | "mig.constraint" =>
     let rel ← parseRel (arg args 1)
     let rels ← (← jArr? (arg args 2)).toList.mapM parseRel
